@@ -11,9 +11,14 @@ package c04
 import (
 	"bytes"
 	"context"
+	"path/filepath"
+	"strings"
+	"syscall"
 	"testing"
 	"time"
 
+	"github.com/superfly/litefs"
+	"github.com/superfly/litefs/verif/crash"
 	"github.com/superfly/litefs/verif/gen"
 	"github.com/superfly/litefs/verif/node"
 	"github.com/superfly/litefs/verif/pager"
@@ -29,7 +34,18 @@ const (
 	KRecover = "recover" // LiteFS's own recover (checkpoint / journal rollback)
 	KDrop    = "drop"    // unlink the database
 	KImport  = "import"  // replace the database with a generated image of N pages
+	KFail    = "fail"    // the next call LiteFS makes with this label fails once with EIO (its OS interface exists for this)
 )
+
+// Calls of a commit that can be made to fail. Rollback-journal modes: the application gets
+// an error and rolls back with the journal it still has. WAL mode: by design LiteFS exits
+// (the commit happens in the unlock of the write lock, which cannot report errors) and the
+// next start recovers.
+var failLabels = []string{
+	"os:create:COMMITJOURNAL:LTX", "os:rename:COMMITJOURNAL:LTX", "os:rename:COMMITJOURNAL:LTX",
+	"os:remove:INVALIDATEJOURNAL:DELETE", "os:truncate:INVALIDATEJOURNAL:TRUNCATE", "os:openfile:INVALIDATEJOURNAL:PERSIST",
+	"os:create:COMMITWAL:LTX", "os:rename:COMMITWAL:LTX",
+}
 
 type Step struct {
 	Kind   string   `json:"k"`
@@ -38,6 +54,7 @@ type Step struct {
 	Ver    uint32   `json:"v,omitempty"`
 	Ckpt   int      `json:"ckpt,omitempty"`
 	Rb     bool     `json:"rb,omitempty"`
+	At     string   `json:"at,omitempty"`
 }
 
 type Plan struct {
@@ -64,8 +81,10 @@ func genPlan(t *rapid.T) Plan {
 				st.Writes = append(st.Writes, uint32(rapid.IntRange(2, 770).Draw(t, "pg")))
 			}
 			p.Steps = append(p.Steps, st)
-		case k < 14:
+		case k < 13:
 			p.Steps = append(p.Steps, Step{Kind: KRestart})
+		case k < 14:
+			p.Steps = append(p.Steps, Step{Kind: KFail, At: rapid.SampledFrom(failLabels).Draw(t, "fail_at")})
 		case k < 16:
 			p.Steps = append(p.Steps, Step{Kind: KCkpt, Ckpt: rapid.IntRange(0, 3).Draw(t, "ckpt")})
 		case k < 17:
@@ -81,10 +100,28 @@ func genPlan(t *rapid.T) Plan {
 
 func runPlan(c *pbt.Case, p Plan) {
 	dir := c.TempDir()
+	rec := &crash.Recorder{}
+	failAt, fired := "", false
+	rec.Fail = func(label string) error {
+		if failAt != "" && label == failAt {
+			failAt, fired = "", true
+			return syscall.EIO
+		}
+		return nil
+	}
+	frozen := ""
 	open := func() *node.Node {
-		n, err := node.NewPrimary(dir, node.Options{Compress: p.Compress})
+		n, err := node.NewPrimary(dir, node.Options{Compress: p.Compress, Configure: func(s *litefs.Store) { rec.Store = s; s.OS = rec.WrapOS(s.OS) }})
 		if err != nil {
 			c.Failf("C04/restart-failed", "opening the store on its data directory: %v", err)
+		}
+		// Store.Exit is process death: what the directory holds at that instant is what
+		// the next start finds (whatever the zombie does afterwards never happened)
+		n.OnExit = func(int) {
+			if frozen == "" {
+				frozen = filepath.Join(c.TempDir(), "at-exit")
+				_ = crash.CopyDir(dir, frozen)
+			}
 		}
 		return n
 	}
@@ -111,11 +148,11 @@ func runPlan(c *pbt.Case, p Plan) {
 		if n.Store.DB(name) == nil {
 			return
 		}
-		if want := model.Img.Checksum(); pos.TXID > 0 && pos.Checksum != want {
-			c.Failf("C04/checksum-vs-writer", "step %d (%s): position %s, but the image the writer produced (%d pages) has checksum %016x", i, what, pos, model.Img.N(), want)
-		}
 		if sig, msg := n.Monitors(name); sig != "" {
 			c.Failf(sig, "step %d (%s): %s", i, what, msg)
+		}
+		if want := model.Img.Checksum(); pos.TXID > 0 && pos.Checksum != want {
+			c.Failf("C04/checksum-vs-writer", "step %d (%s): position %s, but the image the writer produced (%d pages) has checksum %016x", i, what, pos, model.Img.N(), want)
 		}
 	}
 
@@ -128,6 +165,8 @@ func runPlan(c *pbt.Case, p Plan) {
 				tx.Writes = append(tx.Writes, pager.Write{Pgno: w, Ver: st.Ver})
 			}
 			before := model.Img.N()
+			posBefore := n.Pos(name)
+			imgBefore, changeBefore, modeBefore := model.Img, model.Change, model.Mode
 			var res pager.TxResult
 			var err error
 			if p.Mode == pager.WAL {
@@ -140,6 +179,47 @@ func runPlan(c *pbt.Case, p Plan) {
 			} else {
 				res, err = conn.ExecRollbackTx(tx.Tx)
 			}
+			failAt = "" // (a label this transaction did not reach)
+			if fired {
+				// the injected failure hit this transaction
+				fired = false
+				c.Labelf("commit-failed-at:%s", strings.TrimPrefix(st0(p.Steps, i), "os:"))
+				nontrivial = true
+				if ex := n.Exits(); len(ex) > 0 {
+					if p.Mode != pager.WAL {
+						c.Failf("C04/store-exit", "step %d: Store.Exit(%v) after a failed rollback-journal commit", i, ex)
+					}
+					// process death: the next start recovers from the files
+					conn.Close()
+					_ = n.Close()
+					dir, frozen = frozen, ""
+					n = open()
+					model.Wal = pager.WalIndex{}
+					newConn()
+					// LiteFS recovers to its newest transaction file: the transaction is there
+					// or it is not, and the position says which
+					if after := n.Pos(name); after != posBefore {
+						if after.TXID != posBefore.TXID+1 || res.Attempt == nil || tx.Rollback {
+							c.Failf("C04/restart-position", "step %d: position %s before the failed commit, %s after the restart", i, posBefore, after)
+						}
+						model.Img = res.Attempt
+						if model.Change == changeBefore {
+							model.Change++
+						}
+					} else {
+						model.Img, model.Change, model.Mode = imgBefore, changeBefore, modeBefore
+					}
+					c.Label("restart-after-exit")
+				} else {
+					// the application rolls back with the journal it still has (also the
+					// transaction that takes a new database into WAL mode has one)
+					if err := conn.RollbackFailedCommit(); err != nil {
+						c.Failf("C04/op-error", "step %d: rollback after the failed commit refused: %v", i, err)
+					}
+				}
+				check(i, "failed commit")
+				break
+			}
 			if err != nil {
 				c.Failf("C04/op-error", "step %d: transaction refused: %v", i, err)
 			}
@@ -151,6 +231,10 @@ func runPlan(c *pbt.Case, p Plan) {
 				}
 			}
 			check(i, "tx")
+		case KFail:
+			if i+1 < len(p.Steps) && p.Steps[i+1].Kind == KSize {
+				failAt = st.At
+			}
 		case KRestart:
 			before := n.Pos(name)
 			conn.Close()
@@ -234,6 +318,16 @@ func runPlan(c *pbt.Case, p Plan) {
 	if nontrivial {
 		c.NonTrivial()
 	}
+}
+
+// st0 returns the label of the most recent KFail step before step i.
+func st0(steps []Step, i int) string {
+	for j := i - 1; j >= 0; j-- {
+		if steps[j].Kind == KFail {
+			return steps[j].At
+		}
+	}
+	return ""
 }
 
 var sizesProp = pbt.Prop[Plan]{ID: "C04", Name: "sizes", Gen: genPlan, Run: runPlan}
